@@ -260,6 +260,38 @@ func (d *direction) deliver(wait, settle time.Duration) (*wireMsg, bool) {
 	return m, ok
 }
 
+// inject queues a crafted message as if the sender had written it (gated mode).
+func (d *direction) inject(m *wireMsg) {
+	d.mu.Lock()
+	d.queue = append(d.queue, m)
+	d.queued += len(m.raw)
+	d.cond.Broadcast()
+	d.mu.Unlock()
+}
+
+// encodeMsg builds the wire form of a message.
+func encodeMsg(kind string, stream, arg uint64, data []byte) *wireMsg {
+	m := &wireMsg{Kind: kind, Stream: stream, Arg: arg, Data: data}
+	k := 0
+	for i, n := range kindNames {
+		if n == kind {
+			k = i
+		}
+	}
+	raw := []byte{byte(k)}
+	raw = binary.AppendUvarint(raw, stream)
+	switch kind {
+	case "open", "accept", "inc":
+		raw = binary.AppendUvarint(raw, arg)
+	case "data":
+		raw = append(raw, byte(len(data)>>8), byte(len(data)))
+		raw = append(raw, data...)
+		m.Arg = uint64(len(data))
+	}
+	m.raw = raw
+	return m
+}
+
 func (d *direction) sent() int {
 	d.mu.Lock()
 	defer d.mu.Unlock()
